@@ -25,7 +25,7 @@ from fimmc.topo import TopoModel
 
 LEVEL = 'exploration'
 world.install_uuid_seam()
-V = ['', ' ', ' x ', '\t', 'a\nb', 'a\rb', 'a\r\nb', 'a"b', "a'b", '<&>', ']]>', '&amp;', 'é中', 'None', 'true', '0', '{"a": 1}', 0, 5, -1, 2 ** 40]
+V = ['', ' ', ' x ', '\t', 'a\nb', 'a\rb', 'a\r\nb', 'a\n\nb', 'a\n \t\nb\n\n', 'a"b', "a'b", '<&>', ']]>', '&amp;', 'é中', 'None', 'true', '0', '{"a": 1}', 0, 5, -1, 2 ** 40]
 FORMATS = (GraphFormat.GRAPHML, GraphFormat.JSON_NODELINK)
 NS = {'g': 'http://graphml.graphdrawing.org/xmlns'}
 
